@@ -88,7 +88,7 @@ EXTRA = {
     "C08": " Filter objects are written with their members in any order, now and then with white space." + HIST,
     "C01": HIST + " Now and then the schema's soft type is edited (one attribute removed, one added) while the sender's resource is alive and untouched.",
     "C02": HIST, "C05": HIST, "C03": HIST + " Documents may carry top-level links of their own.", "C11": HIST + " Documents may carry top-level links of their own.",
-    "C12": " MarshalDocument is now and then given a page of 100..500 resources (rarely in the quick tier, one run in four in the thorough tier). A run that does not return within 120 s is reported as a violation (all checks).",
+    "C12": HIST + " MarshalDocument is now and then given a page of 100..500 resources (rarely in the quick tier, one run in four in the thorough tier). A run that does not return within 120 s is reported as a violation (all checks).",
 }
 
 
